@@ -512,6 +512,10 @@ def main():
             for j, cap in enumerate([2, 3, 4, 5, 2, 3, 4, 5]):
                 for l in gen_rr_stress(rnd, "rr-%d-stress%d" % (a.seed, j), cap, 120):
                     f.write(l + "\n")
+            # capacities that are not powers of two, each with enough evictions for the never-chosen test of its own
+            for j, (cap, n) in enumerate([(6, 200), (7, 200), (9, 300), (12, 330)]):
+                for l in gen_rr_stress(rnd, "rr-%d-stressn%d" % (a.seed, j), cap, n):
+                    f.write(l + "\n")
     if a.stats:
         with open(a.stats, "w") as f:
             json.dump(stats, f)
